@@ -3,6 +3,7 @@ package rules
 import (
 	"fmt"
 	"go/token"
+	"go/types"
 	"os"
 	"regexp"
 	"sort"
@@ -73,7 +74,40 @@ func runC03(c *Ctx) {
 	c.L.Trust("go/types + go/ssa", "/verif/sa/errshape", "/verif/sa/lincon", "/verif/sa/boolfn", "/verif/sa/skel", "idna.ToASCII treated as opaque")
 	c.L.Assumef("length windows [1,63], [2,16], [1,253] and the rune classes are read from the property statement")
 	c.L.Floor("C03.error-shape", 7)
-	c.L.Floor("C03.wrapper-keeps-input", 7)
+	c.L.Floor("C03.wrapper-keeps-input", 9)
+	// the wrappers themselves: the text and kind stored in the error are the
+	// arguments as given (no trimming, truncation, lowering or re-encoding)
+	for _, wn := range []string{"makeAddrError", "makeLabelError"} {
+		w := c.fn("netutil", wn)
+		if w == nil {
+			continue
+		}
+		ok, why, n := true, "", 0
+		var at ssa.Instruction
+		core.EachInstr(w, func(in ssa.Instruction) {
+			st, isSt := in.(*ssa.Store)
+			if !isSt {
+				return
+			}
+			fa, isFA := st.Addr.(*ssa.FieldAddr)
+			if !isFA {
+				return
+			}
+			if b, isB := st.Val.Type().Underlying().(*types.Basic); !isB || b.Info()&types.IsString == 0 {
+				return
+			}
+			n++
+			if _, isParam := st.Val.(*ssa.Parameter); !isParam && ok {
+				ok, at = false, st
+				why = "the stored text is " + core.Describe(st.Val) + ", not the argument itself: the error no longer names the input as it was given"
+			}
+			_ = fa
+		})
+		if ok {
+			why = sprintf("%d string fields of the error are stored from the parameters unchanged", n)
+		}
+		c.check(ok && n >= 2, "C03.wrapper-keeps-input", w, wn+" stores its text and kind arguments as given", at, why)
+	}
 	c.L.Floor("C03.accept-window", 7)
 	c.L.Floor("C03.reject-window", 5)
 	c.L.Floor("C03.rune-class", 3)
